@@ -79,7 +79,7 @@ pub fn run(world: &World, ctx: &mut Ctx) -> Option<Value> {
         return Some(v);
     }
     let pairs: Vec<_> = super::pairs(world, &[]).into_iter().filter(|(g, r)| g.uses_stack && g.ir.rule_reaches_stack(&g.rules[*r].0)).collect();
-    let total = ctx.tier.pick(150_000u64, 3_000_000u64);
+    let total = ctx.tier.pick(300_000u64, 4_000_000u64);
     let n = super::per_pair(total, pairs.len(), 50, 40_000);
     ctx.ev.extra.insert("grammar_rule_pairs".into(), json!(pairs.len()));
     ctx.ev.extra.insert("cases_per_pair".into(), json!(n));
